@@ -8,7 +8,10 @@ from .. import core, gen
 ID = 'C16'
 _META = core.VERIF / 'harness' / 'props' / 'meta' / 'C16.json'
 LEVEL = json.loads(_META.read_text())['category'] if _META.exists() else 'other'
-RULE = ('corpus; unsigned images (uint8/16/32/64, 1-3 D, 1..4096 pixels) with 1..65536 grey levels: constant, two-level, '
+RULE = ('corpus; a size-threshold stream (a handful of cases per run whose pixel count / per-bin count / number of distinct '
+        'levels crosses 2^8, 2^15, 2^16: 65537 pixels in one bin, 257x256, 255/256/257 and 65535/65536 distinct levels, a '
+        'gbernsen row longer than 65536; thorough: 2^24+1 pixels in one bin judged by an exact Python oracle (Fractions) that '
+        'is compared field by field with the Lean spec on the other threshold cases); unsigned images (uint8/16/32/64, 1-3 D, 1..4096 pixels) with 1..65536 grey levels: constant, two-level, '
         'sparse histograms with gaps, symmetric histograms with exact ties for the optimum, zero-dominated, full 16-bit '
         'range, zeros plus one level, nearly symmetric histograms at high levels, each with ignore_zeros off and on, each also permuted and reshaped; gbernsen/bernsen (radius 1..4, images smaller than the window) on uint8/uint16 '
         'images with random/regular/even-sized structuring elements, contrast thresholds around the occurring contrasts, '
@@ -40,7 +43,70 @@ _skipped = dict(otsu_near_tie=0, rc_near_tie=0)
 
 
 def _img(case):
+    if 'rle' in case:          # size-threshold stream: [[value, count], ...] in C order
+        flat = np.concatenate([np.full(c, v, dtype=np.uint64) for v, c in case['rle']])
+        return flat.astype(case['dtype']).reshape(case['shape'])
     return np.array(case['data'], dtype=np.uint64).astype(case['dtype']).reshape(case['shape'])
+
+
+def _fs(q):
+    q = Fraction(q)
+    return f'{q.numerator}/{q.denominator}'
+
+
+def _py_global(hist_full, real):
+    """Exact O(levels) Python oracle for otsu / rc (Fractions), written from the same definitions as the Lean spec
+    (sigmaAll / listMax / firstArgmax, otsuMargin, rcSpec of Model/C16.lean).  It answers in the driver's output format.
+    It is used INSTEAD of the driver only for inputs too large for the line protocol (thorough tier: 2^24+1 pixels); on the
+    size-threshold cases that do go through the driver its agreement with the Lean spec is checked field by field."""
+    out = [dict(hist=','.join(map(str, hist_full)))]
+    u = Fraction(1, 2 ** 53)
+    for iz in (0, 1):
+        hist = list(hist_full)
+        allzero = bool(iz) and hist[0] == sum(hist)
+        if iz:
+            hist[0] = 0
+        n = len(hist)
+        C, F, c, f_ = [], [], 0, 0
+        for i, h in enumerate(hist):
+            c += h; f_ += i * h
+            C.append(c); F.append(f_)
+        tot, ftot = C[-1], F[-1]
+
+        def sigma(T):
+            nB, nO = C[T], tot - C[T]
+            if nB == 0 or nO == 0:
+                return Fraction(0)
+            dd = Fraction(F[T], nB) - Fraction(ftot - F[T], nO)
+            return nB * nO * dd * dd
+        occ = [i for i, h in enumerate(hist) if h]
+        lo, hi = (occ[0], occ[-1]) if occ else (0, 0)
+        cand = range(lo, hi) if occ else []          # sigma is 0 outside [lo, hi)
+        sig = {T: sigma(T) for T in cand}
+        smax = max(sig.values(), default=Fraction(0))
+        first = next((T for T in cand if sig[T] == smax), 0) if smax > 0 else 0
+        got = int(real[iz][0])
+        sgot = sigma(got) if 0 <= got < n else Fraction(-1)
+        D = hi - lo
+        E = u * ftot * (1 + 4 * D)
+        eta = (1 + u) * (2 * E) + u * D
+        B = ((1 + u) * (E * tot) + u * (tot * tot * D)) * (2 * D + eta) + (2 * u + u * u) * (tot * tot * ((D + eta) * (D + eta)))
+        out.append(dict(n=str(n), smax=_fs(smax), sgot=_fs(sgot), first=str(first), margin=_fs(2 * B), model=str(got)))
+        # rc
+        if allzero or tot == 0:
+            spec, margin, lo_, hi_ = Fraction(0), Fraction(1), 0, 0
+        elif lo == hi:
+            spec, margin, lo_, hi_ = Fraction(lo), Fraction(1), lo, hi
+        else:
+            margin, spec, lo_, hi_ = Fraction(hi + 1), Fraction(0), lo, hi
+            for t in range(lo, hi):
+                m = (Fraction(F[t], C[t]) + Fraction(ftot - F[t], tot - C[t])) / 2
+                margin = min(margin, abs(m - (t + 1)))
+                spec = m
+                if m <= t + 1:
+                    break
+        out.append(dict(spec=_fs(spec), margin=_fs(margin), lo=str(lo_), hi=str(hi_), model=str(core.f2bits(float(real[iz][1])))))
+    return out
 
 
 def _frac(s):
@@ -55,7 +121,8 @@ def _eval_global(case):
     from mahotas.thresholding import otsu, rc
     img = _img(case)
     data = [int(v) for v in img.ravel().tolist()]
-    d = gen.enc_arr(data)
+    use_py = case.get('oracle') == 'python'
+    d = '' if use_py else gen.enc_arr(data)
     f = []
     near = {}
     lines = [f'c16 kind=hist data={d}']
@@ -98,8 +165,22 @@ def _eval_global(case):
     for iz in (0, 1):
         lines.append(f'c16 kind=otsu data={d} iz={iz} got={int(real[iz][0])}')
         lines.append(f'c16 kind=rc data={d} iz={iz}')
-    drv = core.drive(lines)
     mh_hist = [int(v) for v in hist.tolist()]
+    if use_py:
+        drv = _py_global(np.bincount(np.asarray(data, dtype=np.int64), minlength=max(data) + 1).tolist(), real)
+    else:
+        drv = core.drive(lines)
+        if case.get('size') == 'threshold':
+            # the Python oracle agrees with the Lean spec on every field the verdicts use
+            py = _py_global(core.ints(drv[0]['hist']), real)
+            for i in (1, 2, 3, 4):
+                for k in (('smax', 'sgot', 'margin', 'n') if i % 2 else ('spec', 'margin', 'lo', 'hi')):
+                    if k == 'sgot' and not (0 <= int(real[(i - 1) // 2][0]) < int(drv[i]['n'])):
+                        continue
+                    a, b = drv[i][k], py[i][k]
+                    same = (_frac(a) == _frac(b)) if '/' in a else (a == b)
+                    if not same:
+                        f.append(dict(kind='model', key='python-oracle-mismatch', detail=dict(line=i, field=k, lean=a[:80], python=b[:80])))
     if mh_hist != core.ints(drv[0]['hist']):
         # hist[i] == (img == i).sum() is what the docstring promises
         ref = np.bincount(np.array(data, dtype=np.int64), minlength=max(data) + 1).tolist()
@@ -192,7 +273,7 @@ def _eval_global(case):
                 tags=dict(kind='otsu+rc', near_tie=('+'.join(sorted(near)) or 'none'), dtype=case['dtype'], gen=case.get('gen', 'corpus'),
                           levels=('1' if nlevels == 1 else '2' if nlevels == 2 else '3-16' if nlevels <= 16 else '>16'),
                           maxlevel=('<256' if max(data) < 256 else '<4096' if max(data) < 4096 else '16bit'),
-                          ndim=len(case['shape'])))
+                          ndim=len(case['shape']), size=case.get('size', 'small')))
 
 
 # ------------------------------------------------------------------------------------------ bernsen
@@ -252,7 +333,7 @@ def _eval_bernsen(case):
     both = any(interior) and len({(m, p) for m, p, o in zip(model, pinned, interior) if o}) > 1
     return dict(findings=f, nontrivial=bool(both), sig='b' + line,
                 tags=dict(kind=name, dtype=case['dtype'], gen=case.get('gen', 'corpus'), ndim=len(case['shape']),
-                          se=('even' if any(s % 2 == 0 for s in se.shape) else 'odd')))
+                          se=('even' if any(s % 2 == 0 for s in se.shape) else 'odd'), size=case.get('size', 'small')))
 
 
 # ------------------------------------------------------------------------------------------ soft threshold
@@ -463,8 +544,44 @@ def _rand_soft(rng):
     return dict(kind='soft', dt='i64', shape=shape, data=vals, t=t, gen='int')
 
 
+def _size_threshold_cases(rng, tier):
+    """A handful of inputs whose pixel count / per-bin count / number of distinct levels crosses 2^8, 2^15, 2^16: a counter,
+    index or accumulator narrowed to 16 bits (or to float) passes every small case."""
+    out = []
+
+    def g(dtype, shape, gen_, **kw):
+        out.append(dict(kind='global', dtype=dtype, shape=shape, pseed=rng.randrange(1 << 30), gen=gen_, size='threshold', **kw))
+    a, b = rng.randint(1, 6), rng.randint(7, 200)
+    # more than 65535 pixels in ONE bin (and 2^15 +- 1 in another)
+    g('uint8', [1, 65537 + 3], 'one-bin-65537', rle=[[a, 65537], [b, 3]])
+    g('uint8', [257, 256], 'one-bin-257x256', rle=[[a, 257 * 256 - 32769], [b, 32769]])
+    if tier != 'quick' or rng.random() < 0.5:
+        g('uint16', [65536 + 32767], 'bins-65536+32767', rle=[[0, 65536], [b * 100, 32767]])
+    # exactly 255 / 256 / 257 distinct levels, and 65535 / 65536
+    k = rng.choice([255, 256, 257])
+    lv = list(range(k)); rng.shuffle(lv)
+    g('uint16', [k], f'levels-{k}', data=lv)
+    k = rng.choice([65535, 65536]) if tier == 'quick' else 65536
+    lv = list(range(k)); rng.shuffle(lv)
+    g('uint16', [k], f'levels-{k}', data=lv)
+    if tier != 'quick':
+        lv = list(range(65535)); rng.shuffle(lv)
+        g('uint16', [65535], 'levels-65535', data=lv)
+        # 2^24 + 1 pixels in one bin (a float32 accumulator stops counting at 2^24); judged by the Python oracle
+        out.append(dict(kind='global', dtype='uint8', shape=[2 ** 24 + 1 + 5], pseed=rng.randrange(1 << 30), gen='one-bin-2^24+1',
+                        size='threshold', oracle='python', rle=[[a, 2 ** 24 + 1], [b, 5]]))
+    # gbernsen on a row longer than 65536
+    w = 65536 + rng.randint(1, 40)
+    row = [rng.randint(0, 255) for _ in range(w)]
+    out.append(dict(kind='gbernsen', dtype='uint8', shape=[1, w], data=row, bshape=[1, 3], bc=[1, 1, 1], ct=rng.choice([15, 40, 128]),
+                    g2=256, gen='row-65536+', size='threshold'))
+    return out
+
+
 def cases(rng, tier):
     out = list(_corpus()) if tier != 'search' else []
+    if tier != 'search':
+        out += _size_threshold_cases(rng, tier)
     ng, nb, ns = dict(quick=(3000, 1500, 500), thorough=(28000, 9000, 3000), search=(6000, 3000, 500))[tier]
     # exhaustive tiny histograms (every count vector over the first few grey levels): the stopping rules and arg-max
     # comparisons of otsu / rc are decided by exact ties and integer midpoints, which large random images never produce
@@ -498,6 +615,8 @@ def shrink(case):
                 e = d[:i] + d[i + 1:]
                 yield dict(case, shape=[len(e)], **{key: e})
         return
+    if 'rle' in case or case.get('size') == 'threshold':
+        return                       # the size IS the point of these cases
     shape, data = case['shape'], case['data']
     A = np.array(data, dtype=object).reshape(shape)
     for ax in range(len(shape)):
